@@ -262,7 +262,7 @@ def design_level(chk):
                       "as-coded controller model violates %s" % res.violated,
                       {"cfg": cfg}, "\n".join(h + "\n" + b for h, b in res.error_trace()))
     # liveness of the as-coded model: a started step ends (weak fairness, no state constraint)
-    live = tlc.run_tlc("Controller", cfg="ControllerLive", timeout=3000)
+    live = tlc.run_tlc("Controller", cfg="ControllerLive" if chk.quick else "ControllerLive5", timeout=3000)
     chk.add_tlc(live)
     if live.violated:
         chk.violation("C04:design-liveness:%s" % live.violated,
